@@ -122,6 +122,7 @@ type sessJob struct {
 	Traces   int      `json:"traces"`   // number of random walks
 	Scheds   []string `json:"scheds"`   // schedule files (each a JSON list of actions) replayed before the walks
 	Out      string   `json:"out"`      // ndjson output
+	NoPrefix bool     `json:"noprefix"` // replay of a recorded trace: the schedule carries the set-up actions itself, in the order they were recorded
 	Drain    bool     `json:"drain"`    // append the fair, loss-free suffix
 	NoTime   bool     `json:"notime"`   // frozen clock
 	Stats    string   `json:"stats"`    // JSON summary output
@@ -819,6 +820,8 @@ func runSession(t *testing.T, cfg *sessCfg, job *sessJob, rng *mrand.Rand, sched
 				mm.Tid = int(v)
 				if r, ok2 := S[b].raw[mm.Tid]; ok2 {
 					raw = r
+				} else {
+					_, _ = rand.Read(raw[:]) // an id of the attacker's own, whatever the random part above had picked
 				}
 			}
 			if u, ok := want["user"].([]any); ok && len(u) == 2 {
@@ -1147,7 +1150,7 @@ func runSession(t *testing.T, cfg *sessCfg, job *sessJob, rng *mrand.Rand, sched
 		prefix[k], prefix[len(prefix)-2] = prefix[len(prefix)-2], prefix[k]
 	}
 	for _, c := range prefix {
-		if c.ev == "Gather" && !gathNew[c.ag] {
+		if job.NoPrefix || (c.ev == "Gather" && !gathNew[c.ag]) {
 			continue
 		}
 		do(c)
@@ -1380,6 +1383,8 @@ func runSession(t *testing.T, cfg *sessCfg, job *sessJob, rng *mrand.Rand, sched
 				skip = c.i >= len(sn.Pairs) || sn.Role != "controlling"
 			case "Gather":
 				skip = !gathNew[c.ag]
+			case "Start":
+				skip = started[c.ag]
 			case "AddRemote":
 				if cc, ok := a["c"].(map[string]any); ok {
 					c.i = -1
